@@ -215,6 +215,11 @@ func (p *Parser) resolveConverters(generatingMethods []*bmodel.MethodEntry, conv
 			err = logger.Errorf("%v: function %v cannot use as a converter", p.fset.Position(pos), name)
 			continue
 		}
+		if 0 < len(method.AdditionalArgVars()) {
+			// A converter is called with the source value alone.
+			err = logger.Errorf("%v: function %v cannot use as a converter", p.fset.Position(pos), name)
+			continue
+		}
 		conv.Set(method.SrcVar().Type(), method.DstVar().Type(), method.RetError())
 		return nil
 	}
